@@ -992,9 +992,19 @@ func (ex *Exec) modified(nodes ...ast.Node) *modSet {
 			case *ast.AssignStmt:
 				for _, l := range x.Lhs {
 					visitLHS(l)
+					ms.events["assign:"+exprText(ast.Unparen(l))] = true
 				}
+				ms.events["stmt:"+normSpace(ex.nodeSrc(x))] = true
+			case *ast.ExprStmt:
+				ms.events["stmt:"+normSpace(ex.nodeSrc(x))] = true
+			case *ast.BranchStmt:
+				ms.events["stmt:"+normSpace(ex.nodeSrc(x))] = true
+			case *ast.ReturnStmt:
+				ms.events["stmt:"+normSpace(ex.nodeSrc(x))] = true
 			case *ast.IncDecStmt:
 				visitLHS(x.X)
+				ms.events["assign:"+exprText(ast.Unparen(x.X))] = true
+				ms.events["stmt:"+normSpace(ex.nodeSrc(x))] = true
 			case *ast.RangeStmt:
 				if x.Key != nil {
 					visitLHS(x.Key)
@@ -1058,8 +1068,12 @@ func (ex *Exec) ghostsWrittenBy(ms *modSet) map[string]bool {
 			fire = ms.events[h.Kind+":"+strings.TrimSuffix(h.Target, "()")]
 		case "exit":
 			fire = false
+		case "after", "before":
+			fire = ms.events["stmt:"+normSpace(h.Target)]
+		case "assign":
+			fire = ms.events["assign:"+h.Target]
 		default:
-			fire = true // assign / anchors / go / close: not tracked precisely
+			fire = true // go / close: not tracked precisely
 		}
 		if !fire {
 			continue
@@ -1236,6 +1250,16 @@ func (ex *Exec) preTouch(st *State, nodes ...ast.Node) {
 	ex.mem(st, tByte)
 }
 
+func (ex *Exec) recordLoopPre(st *State, path string) {
+	snap := st.clone()
+	n := map[string]*State{}
+	for k, v := range st.loopPre {
+		n[k] = v
+	}
+	n[path] = snap
+	st.loopPre = n
+}
+
 // havocLoop havocs everything the loop may modify.
 func (ex *Exec) havocLoop(st *State, ms *modSet) {
 	var objs []types.Object
@@ -1400,6 +1424,8 @@ func (ex *Exec) forStmt(st *State, s *ast.ForStmt, label string) []flow {
 	}
 	path := ex.loopPathOf(s)
 	ls := ex.loopSpec(path)
+	ex.preTouch(st, s.Body, s.Post, s.Cond)
+	ex.recordLoopPre(st, path)
 	ex.loopInvs(st, ls, path, "init", false, s.Pos(), nil, "", nil)
 	ms := ex.modified(s.Body, s.Post, s.Cond)
 	ex.preTouch(st, s.Body, s.Post, s.Cond)
@@ -1538,6 +1564,8 @@ func (ex *Exec) rangeStmt(st *State, s *ast.RangeStmt, label string) []flow {
 		total = nil
 	}
 	k0 := intLit(0)
+	ex.preTouch(st, s.Body)
+	ex.recordLoopPre(st, path)
 	ex.loopInvs(st, ls, path, "init", false, s.Pos(), shadow, counter, k0)
 	ms := ex.modified(s.Body)
 	// the key/value variables are assigned by the loop itself
@@ -1548,7 +1576,6 @@ func (ex *Exec) rangeStmt(st *State, s *ast.RangeStmt, label string) []flow {
 			}
 		}
 	}
-	ex.preTouch(st, s.Body)
 	ex.havocLoop(st, ms)
 	k := ex.fresh(counter, SInt)
 	st.assume(ge(k, intLit(0)))
@@ -1628,7 +1655,14 @@ func (ex *Exec) rangeStmt(st *State, s *ast.RangeStmt, label string) []flow {
 		}
 	}
 	d0 := ex.evalDecr(body, ls, path, nil, counter, k)
+	if _, clash := body.bound[counter]; !clash && keyName == "" {
+		body.bound[counter] = &Val{T: tInt, Term: k}
+		defer func() {}()
+	}
 	for _, f := range ex.block(body, s.Body.List) {
+		if f.st != nil && keyName == "" {
+			delete(f.st.bound, counter)
+		}
 		switch {
 		case f.kind == flowNormal || (f.kind == flowContinue && (f.label == "" || f.label == label)):
 			k1 := add(k, intLit(1))
